@@ -1,11 +1,11 @@
 SPECIFICATION Spec
 CONSTANTS
-  Family = "stopfirst"
+  Family = "doublestart"
   MaxEm = 3
   EvPerEm = 2
   FixD3 = TRUE
   FixD10 = TRUE
   FixD12 = TRUE
-  FixD17 = FALSE
-  FixD18 = TRUE
-INVARIANT C06_AllExitedAfterJoin
+  FixD17 = TRUE
+  FixD18 = FALSE
+INVARIANT C13_ScheduledWatchHasEmitter
